@@ -29,7 +29,7 @@ lookup while the first is still open: 0 none / 1 optimistic writer / 2 non-optim
 writer).  The flags are decided one by one under CrossHair's tracer (explicit branching) and the whole real pipeline
 then runs under `NoTracing` with the chosen values: every explored path is ONE concrete run of the real code with an
 option combination chosen by the solver, and "Confirmed over all paths" means every combination in the bound was
-run and satisfied the reference (fault-enumeration level; counted: 960 distinct combinations per SQLite harness, 960
+run and satisfied the reference (fault-enumeration level; 1040 distinct combinations per SQLite harness, 1040
 per PostgreSQL harness in the quick tier, each explored exactly once).  Reason: the traced query translator does not
 finish one path in 150 s (measured), a path under NoTracing costs ~15 ms idle / ~65 ms on the loaded machine.
 Every path starts from cold translator / SQL-text caches (`_cold`): pony keeps per-location state across sessions - a
